@@ -26,9 +26,16 @@ Inductive cop :=
 | CSetPath (id : Z) (p : list val) (b : Z)
 | CResetTo (ins : list (Z * val)) (b : Z)
 | CClone
-| CReset.
+| CReset
+(* ResetOptionsTo with a selection (positions) of the receiver's OWN current
+   options: the Value slices of the input alias the receiver's value storage.
+   view: 0 = a new slice of Option structs, 1 = Options() / a sub-slice of it
+   (the input shares the receiver's option array too); not used by the model *)
+| CResetOwn (sel : list Z) (b view : Z).
 
-Definition to_op (c : cop) : op :=
+(* [cur]: the list before the step (the model's for [agrees], the reference's
+   for [pclass]) *)
+Definition to_op (cur : list opt) (c : cop) : op :=
   match c with
   | CSet id v => OSet id (vbytes v)
   | CAdd id v => OAdd id (vbytes v)
@@ -41,6 +48,7 @@ Definition to_op (c : cop) : op :=
   | CResetTo ins b => OResetTo (map (fun x => (fst x, vbytes (snd x))) ins) b
   | CClone => OClone
   | CReset => OReset
+  | CResetOwn sel b _ => OResetTo (pick cur sel) b
   end.
 
 (* one step with what was observed after it: error class, used, len(valueBuffer)
@@ -123,7 +131,7 @@ Fixpoint agrees_o (ps : list Z) (l : list opt) (ss : list step) : bool :=
   match ss with
   | [] => true
   | St c err used _ lh gh :: r =>
-    let '(l', u, e) := ostep l (to_op c) in
+    let '(l', u, e) := ostep l (to_op l c) in
     (e =? err) && (u =? used) && (lhash l' =? lh)
     && zlist_eqb (map hwords (model_words ps l')) gh && agrees_o ps l' r
   end.
@@ -131,7 +139,7 @@ Fixpoint agrees_m (ps : list Z) (s : mstate) (ss : list step) : bool :=
   match ss with
   | [] => true
   | St c err _ vb lh gh :: r =>
-    let '(s', e) := mstep s (to_op c) in
+    let '(s', e) := mstep s (to_op (m_opts s) c) in
     (e =? err) && (m_vb s' =? vb) && (lhash (m_opts s') =? lh)
     && zlist_eqb (map hwords (model_words ps (m_opts s'))) gh && agrees_m ps s' r
   end.
@@ -145,6 +153,8 @@ Definition agrees (c : case) : bool :=
    2 a refused operation changed the list; 3 an operation that must be refused
    (segment > 255 bytes, buffer too small) was performed; 4 a valid operation
    was refused; 5 path after set-path is not the normalised path;
+   6 reset-to with (a selection of) the message's own options did not produce
+   the list the reference predicts from the options as they were before the call;
    10+k getter kind k answers differently from the reference (or panics):
    10 find/has, 11 first bytes/string, 12 uint32/content-format/observe/accept,
    13 GetUint32s, 14 GetStrings, 15 GetBytess, 16 Path, 17 LocationPath,
@@ -173,12 +183,13 @@ Fixpoint pclass_steps (bounded : bool) (ps : list Z) (r : list opt) (ss : list s
   match ss with
   | [] => 0%N
   | St c err _ _ lh gh :: rest =>
-    let v := ref_step bounded r (to_op c) in
+    let v := ref_step bounded r (to_op r c) in
     let r' := match v with Some x => x | None => r end in
     let cls :=
       match v with
       | None => if err =? 0 then 3%N else if lhash r =? lh then 0%N else 2%N
-      | Some _ => if negb (err =? 0) then 4%N else if lhash r' =? lh then 0%N else 1%N
+      | Some _ => if negb (err =? 0) then 4%N else if lhash r' =? lh then 0%N
+                  else match c with CResetOwn _ _ _ => 6%N | _ => 1%N end
       end in
     if negb (cls =? 0)%N then cls
     else
